@@ -6,7 +6,8 @@
 namespace tulz_verif_inst {
 inline void use(tulz::SubjectRouter &r, const tulz::RoutingKey &k) {
     (void) r.notify(k);
-    (void) r.notify(k, 5);
+    (void) r.notify(k, 5);          // Args = int
+    int v = 0; (void) r.notify(k, v);   // Args = int&
     auto s0 = r.subscribe<>(k, [] {});
     auto s1 = r.subscribe<int>(k, [](int) {});
 }
